@@ -143,4 +143,13 @@ theorem fold_eval : ∀ (F : Nat) (e : IR) (s : List Val),
   | zero => exact fold_aux T 0 (by intro F0 h; omega)
   | succ F ih => exact fold_aux T (F + 1) (by intro F0 h; obtain rfl : F0 = F := (by omega); exact ih)
 
+/-! ## The recursive inliner's rewrite (`recursively_inline_function_calls`, STEEL_INLINE_RECURSIVE) -/
+
+/-- What `recursively_inline_function_calls` does at a call site: the callee's `lambda` is put in operator
+position whatever the number of operands (no comparison with the number of parameters, finding K02b). -/
+def inlineCallNoArity (fns : List FnDef) (h : Nat) (f : Nat) (args : List IR) : IR :=
+  match fns[f]? with
+  | some fd => bindArgs args (shift h fd.body)
+  | none => .call f args
+
 end SteelVerif.C02
